@@ -79,7 +79,7 @@ func genC05(g *Gen, tier string, w *bufio.Writer) {
 		}
 		for n := 0; n <= 5; n++ {
 			for _, mode := range []string{"json", "csv", "batch_table", "stream_native"} {
-				for _, nested := range []int{0, 1} {
+				for _, nested := range []int{0, 1, 2} {
 					for order := 0; order <= 2; order++ {
 						fmt.Fprintf(w, "lim2 %s %d %d %d %s\n", mode, nested, order, n, sb.String())
 					}
@@ -107,7 +107,7 @@ func driveC05(toks []string) string {
 	if toks[0] != "lim2" {
 		return driveSel(toks)
 	}
-	mode, nested, order, n := toks[1], toks[2] == "1", toks[3], toks[4]
+	mode, nested, order, n := toks[1], toks[2], toks[3], toks[4]
 	ncols, _ := strconv.Atoi(toks[6])
 	nrows, _ := strconv.Atoi(toks[7])
 	rest := toks[8:]
@@ -128,8 +128,11 @@ func driveC05(toks []string) string {
 	}
 	inner := "SELECT c0, COUNT(c1) AS c FROM t.csv t GROUP BY c0 TRIGGER COUNTING 1"
 	sql := inner + ord + " LIMIT " + n
-	if nested {
+	if nested == "1" {
 		sql = "SELECT * FROM (" + inner + ") q" + ord + " LIMIT " + n
+	} else if nested == "2" {
+		// the ORDER BY / LIMIT themselves sit inside a subquery (materialised by physical/nodes.go, not cmd/root.go)
+		sql = "SELECT * FROM (SELECT * FROM (" + inner + ") q" + ord + " LIMIT " + n + ") q2"
 	}
 	return canonOutput(runOctosql(dir, nil, sql, "-o", mode), mode, "ii")
 }
